@@ -26,6 +26,10 @@ for i in ids:
     d = os.path.join(SEEDED, i)
     meta = json.load(open(os.path.join(d, "meta.json")))
     props = meta.get("check_with") or [meta["property"]]
+    if meta.get("obsolete"):
+        results.setdefault(i, {})[tier] = {"result": "obsolete", "detail": meta["obsolete"]}
+        print(i, "obsolete (not evaluated)")
+        continue
     p = subprocess.run(["git", "-C", "/repo", "apply", os.path.join(d, "patch.diff")], capture_output=True, text=True)
     if p.returncode != 0:
         results.setdefault(i, {})[tier] = {"result": "patch does not apply", "detail": p.stderr[-300:]}
